@@ -57,6 +57,12 @@ async fn resolve_recursive_notimeout<'a>(
     context: &mut RecursiveContext<'a>,
     question: &Question,
 ) -> Result<ResolvedRecord, ResolutionError> {
+    // Nested resolutions which are answered (or fail) from local state never
+    // wait on the network, and a search through nameserver names which cannot
+    // be resolved can be made of a great many of them.  Give the 60s timeout
+    // of `resolve_recursive` a chance to fire.
+    tokio::task::yield_now().await;
+
     if context.at_recursion_limit() {
         tracing::debug!("hit recursion limit");
         return Err(ResolutionError::RecursionLimit);
